@@ -1,12 +1,63 @@
 package crdt
 
 import (
+	"strconv"
 	"time"
 
 	peer "github.com/libp2p/go-libp2p-core/peer"
 )
 
-var vrfEntries = map[string]func(){"VrfC15Crdt": VrfC15Crdt}
+var vrfEntries = map[string]func(){"VrfC15Crdt": VrfC15Crdt, "VrfC15CrdtEnv": VrfC15CrdtEnv}
+
+// VrfC15CrdtEnv: settings supplied through environment variables (the nested
+// batching section included) on top of an arbitrary valid configuration. Empty
+// text and a zero queue size mean "keep"; everything else must be in effect.
+func VrfC15CrdtEnv() {
+	cfg := &Config{}
+	cfg.ClusterName = vrf_nondet_string("cluster_name")
+	cfg.PeersetMetric = vrf_nondet_string("peerset_metric")
+	cfg.DatastoreNamespace = DefaultDatastoreNamespace
+	cfg.RebroadcastInterval = time.Duration(vrf_nondet_int64("rebroadcast_interval"))
+	cfg.Batching.MaxBatchSize = vrf_nondet_int("max_batch_size")
+	cfg.Batching.MaxBatchAge = time.Duration(vrf_nondet_int64("max_batch_age"))
+	cfg.Batching.MaxQueueSize = vrf_nondet_int("max_queue_size")
+	cfg.TrustAll = true
+	vrf_assume(cfg.Validate() == nil)
+	before := *cfg
+
+	setN, valN := vrf_nondet_bool("env_set_ClusterName"), vrf_nondet_string("env_ClusterName")
+	setM, valM := vrf_nondet_bool("env_set_PeersetMetric"), vrf_nondet_string("env_PeersetMetric")
+	setR, valR := vrf_nondet_bool("env_set_RebroadcastInterval"), time.Duration(vrf_nondet_int64("env_RebroadcastInterval"))
+	setS, valS := vrf_nondet_bool("env_set_MaxBatchSize"), vrf_nondet_int("env_MaxBatchSize")
+	setA, valA := vrf_nondet_bool("env_set_MaxBatchAge"), time.Duration(vrf_nondet_int64("env_MaxBatchAge"))
+	setQ, valQ := vrf_nondet_bool("env_set_MaxQueueSize"), vrf_nondet_int("env_MaxQueueSize")
+	vrf_env(envConfigKey, "ClusterName", setN, valN)
+	vrf_env(envConfigKey, "PeersetMetric", setM, valM)
+	vrf_env(envConfigKey, "RebroadcastInterval", setR, valR.String())
+	vrf_env(envConfigKey, "Batching_MaxBatchSize", setS, strconv.Itoa(valS))
+	vrf_env(envConfigKey, "Batching_MaxBatchAge", setA, valA.String())
+	vrf_env(envConfigKey, "Batching_MaxQueueSize", setQ, strconv.Itoa(valQ))
+
+	err := cfg.ApplyEnvVars()
+
+	want := before
+	want.ClusterName = vrf_ite_str(vrf_and(setN, valN != ""), valN, before.ClusterName)
+	want.PeersetMetric = vrf_ite_str(vrf_and(setM, valM != ""), valM, before.PeersetMetric)
+	want.RebroadcastInterval = time.Duration(vrf_ite_int(setR, int(valR), int(before.RebroadcastInterval)))
+	want.Batching.MaxBatchSize = vrf_ite_int(setS, valS, before.Batching.MaxBatchSize)
+	want.Batching.MaxBatchAge = time.Duration(vrf_ite_int(setA, int(valA), int(before.Batching.MaxBatchAge)))
+	want.Batching.MaxQueueSize = vrf_ite_int(vrf_and(setQ, valQ != 0), valQ, before.Batching.MaxQueueSize)
+	if err == nil {
+		vrf_assert(vrf_and(cfg.ClusterName == want.ClusterName, cfg.PeersetMetric == want.PeersetMetric), "C15.crdt.env-in-effect")
+		vrf_assert(cfg.RebroadcastInterval == want.RebroadcastInterval, "C15.crdt.env-in-effect")
+		vrf_assert(vrf_and(cfg.Batching.MaxBatchSize == want.Batching.MaxBatchSize, vrf_and(cfg.Batching.MaxBatchAge == want.Batching.MaxBatchAge, cfg.Batching.MaxQueueSize == want.Batching.MaxQueueSize)), "C15.crdt.env-in-effect")
+		vrf_assert(cfg.TrustAll && cfg.DatastoreNamespace == before.DatastoreNamespace, "C15.crdt.env-others-unchanged")
+		vrf_assert(cfg.Validate() == nil, "C15.crdt.env-accepted-implies-valid")
+	} else {
+		vrf_assert(want.Validate() != nil, "C15.crdt.env-valid-accepted")
+	}
+	vrf_reach("C15.crdt.env-end")
+}
 
 var vrfPeerStrs = []string{"QmZHKZDavkvNfA9gSAg7HALv8jF7BJaKjUc9U2LSuvUySB", "QmP63DkAFEnDYNjDYBpyNDfttu1fvUw99x1brscPzpqmmq"}
 
